@@ -7,6 +7,7 @@ import (
 
 	"github.com/davecgh/go-spew/spew"
 	"github.com/internetarchive/Zeno/internal/pkg/log"
+	"github.com/internetarchive/Zeno/internal/pkg/verifhook"
 	"github.com/internetarchive/Zeno/pkg/models"
 )
 
@@ -106,6 +107,7 @@ func ReceiveFeedback(item *models.Item) error {
 		// An item sent to the feedback channel should be present on the state table, if not present reactor should error out
 		return ErrFeedbackItemNotPresent
 	}
+	verifhook.At("reactor.feedback", item.GetID())
 	select {
 	case <-globalReactor.ctx.Done():
 		return ErrReactorShuttingDown
@@ -146,6 +148,7 @@ func ReceiveInsert(item *models.Item) error {
 			panic("item already present in reactor")
 		}
 
+		verifhook.AtKV("reactor.insert", item.GetID(), item.GetURL().Raw, item.GetURL().GetHops())
 		globalReactor.input <- item
 		return nil
 	}
@@ -158,7 +161,9 @@ func MarkAsFinished(item *models.Item) error {
 	}
 
 	if _, loaded := globalReactor.stateTable.LoadAndDelete(item.GetID()); loaded {
+		verifhook.At("reactor.finish.deleted", item.GetID())
 		<-globalReactor.tokenPool
+		verifhook.At("reactor.finish.released", item.GetID())
 		return nil
 	}
 	return ErrFinisehdItemNotFound
